@@ -331,36 +331,40 @@ class AbstractMessageLogEntry(abc.ABC):
         if not isinstance(val, (int, float, bytes, str, type(None), tuple, TupleCoord)):
             val = str(val)
 
-        if not operator:
-            return bool(val)
-        elif operator == "==":
-            return val == expected
-        elif operator == "!=":
-            return val != expected
-        elif operator == "^=":
-            if val is None:
-                return False
-            return val.startswith(expected)
-        elif operator == "$=":
-            if val is None:
-                return False
-            return val.endswith(expected)
-        elif operator == "~=":
-            if val is None:
-                return False
-            return expected in val
-        elif operator == "<":
-            return val < expected
-        elif operator == "<=":
-            return val <= expected
-        elif operator == ">":
-            return val > expected
-        elif operator == ">=":
-            return val >= expected
-        elif operator == "&":
-            return val & expected
-        else:
-            raise ValueError(f"Unexpected operator {operator!r}")
+        try:
+            if not operator:
+                return bool(val)
+            elif operator == "==":
+                return val == expected
+            elif operator == "!=":
+                return val != expected
+            elif operator == "^=":
+                if val is None:
+                    return False
+                return val.startswith(expected)
+            elif operator == "$=":
+                if val is None:
+                    return False
+                return val.endswith(expected)
+            elif operator == "~=":
+                if val is None:
+                    return False
+                return expected in val
+            elif operator == "<":
+                return val < expected
+            elif operator == "<=":
+                return val <= expected
+            elif operator == ">":
+                return val > expected
+            elif operator == ">=":
+                return val >= expected
+            elif operator == "&":
+                return val & expected
+            else:
+                raise ValueError(f"Unexpected operator {operator!r}")
+        except (TypeError, AttributeError):
+            # The comparison can't be applied to a value of this type, so it doesn't match.
+            return False
 
     def _base_matches(self, matcher: "MessageFilterNode") -> typing.Optional[bool]:
         if len(matcher.selector) == 1:
